@@ -404,7 +404,7 @@ func runC05(c *ctx, r *Report) error {
 	if !c.quick {
 		nV = 6000
 	}
-	return visitTie(c, r, nV, func(cs Case) (string, string) {
+	return visitTie(c, r, nV, false, func(cs Case) (string, string) {
 		names := []string{"prop-undefined", "filter-prop-undefined", "undefined-variable"}
 		if a, b := visitCodes(cs.Impl, names...), visitCodes(cs.Model, names...); a != b {
 			return "workflow-scope-differs-from-proved-rule", "the 'not defined' reports at the probes (" + a + ") differ from the proved scope rule (" + b + ")"
